@@ -198,5 +198,40 @@ pub fn c06(a: &Args) {
             }
         }
     }
-    out.finish("every model of the C01 space (roots of both kinds) x assumption sets (empty, random of 1..3 literals, a contradictory one) x amount sequences over {1,2,3,5,count,count+1} up to two cycles (all sequences up to depth 4/5 for count<=6, random otherwise), literals of A permuted between calls, through the library and the stream; non-trivial = at least 2 models contain A; distinct by (file, A, sequence)");
+    // pages of more than 10 000 configurations through the stream and the library on models with 16 384 / 24 576 models
+    // (amounts chosen so that what is left of a cycle hits multiples of 1 000 / 10 000 and the cycle boundary)
+    for (idx, (lines, n, count)) in [
+        (vec!["o 1 0".to_string(), "t 2 0".to_string(), "1 2 1 0".to_string(), "1 2 -1 2 0".to_string()], 15u32, 3usize << 13),
+        (vec!["a 1 0".to_string(), "t 2 0".to_string(), "1 2 0".to_string()], 14u32, 1usize << 14)].into_iter().enumerate() {
+        let text = lines.join("\n");
+        let ls = lines.clone();
+        let Ok(mut d) = guarded(move || ddnnife::parser::distribute_building(ls, Some(n), None)) else { out.fail("load-panic", &text, "load", "panic", "a model"); continue };
+        let via_stream = true;
+        // what is left of the cycle when a request of more than 10 000 arrives: 20 000, 10 000 (idx 0), 10 000, 0 (idx 1)
+        let amounts: Vec<usize> = if idx == 0 { vec![4576, 25000, 14576, 12000, 1, 30000] } else { vec![6384, 12000, 5000, 10000, 16384, 20000] };
+        let mut seen: std::collections::HashSet<Vec<i32>> = Default::default();
+        let mut served = 0usize;
+        for (step, &k) in amounts.iter().enumerate() {
+            let req = format!("enum l {k} (step {step}, {served} of {count} served in this cycle, -t {n})");
+            out.eval(Some(format!("{text}|big|{step}")));
+            out.count("big_pages", 1);
+            let page: Result<Option<Vec<Vec<i32>>>, String> = if via_stream {
+                guarded(|| d.handle_stream_msg(&format!("enum l {k}"))).map(|s| if s.starts_with('E') { None } else { Some(s.split(';').map(|c| c.split_whitespace().map(|x| x.parse::<i32>().unwrap_or(0)).collect()).collect()) })
+            } else { guarded(|| d.enumerate(&mut vec![], k)) };
+            match page {
+                Ok(Some(page)) => {
+                    let want = k.min(count - served);
+                    if page.len() != want { out.fail("enumeration-paging", &text, &req, &format!("{} configurations", page.len()), &format!("{want} configurations (the rest of the cycle)")); break; }
+                    let mut dup = None;
+                    for c in &page { if c.len() != n as usize { dup = Some(format!("{:?} is not complete", c)); break; } if !seen.insert(c.clone()) { dup = Some(format!("{:?} was already returned in this cycle", c)); break; } }
+                    if let Some(e) = dup { out.fail("enumeration-paging", &text, &req, &e, "every model once per cycle"); break; }
+                    served += page.len();
+                    if served == count { served = 0; seen.clear(); }
+                }
+                Ok(None) => { out.fail("enumeration-paging", &text, &req, "None / error reply", "a page"); break; }
+                Err(e) => { out.fail("enumeration-paging", &text, &req, &format!("panic: {e}"), "a page"); break; }
+            }
+        }
+    }
+    out.finish("every model of the C01 space (roots of both kinds) x assumption sets (empty, random of 1..3 literals, a contradictory one) x amount sequences over {1,2,3,5,count,count+1} up to two cycles (all sequences up to depth 4/5 for count<=6, random otherwise), literals of A permuted between calls, through the library and the stream; pages of 10 000+ configurations on two models with 16 384 / 24 576 models; non-trivial = at least 2 models contain A; distinct by (file, A, sequence)");
 }
